@@ -4,5 +4,6 @@ CONSTANTS
   BlockInverted = TRUE
   CaseSensitive = FALSE
   StripOnValidate = FALSE
+  MappedByPrefix = FALSE
 SPECIFICATION Spec
 CHECK_DEADLOCK FALSE
